@@ -90,8 +90,12 @@ fn random_schedule(r: &mut ChaCha20Rng, len: usize) -> Vec<Value> {
                 let label = if below(r, 6) == 0 { below(r, NSIGNERS as u64) } else { who };
                 let variant = if below(r, 8) == 0 { "bad" } else { "ok" };
                 let ent = ["MSD", "CSD", "CDB"][below(r, 3) as usize];
-                json!({"a":"Sign","entity": ent, "who": who, "label": label, "variant": variant,
-                       "auth": below(r, 3) != 0})
+                if below(r, 2) == 0 {
+                    json!({"a":"Sign","entity": ent, "who": who, "label": label, "variant": variant, "via": "http"})
+                } else {
+                    json!({"a":"Sign","entity": ent, "who": who, "label": label, "variant": variant,
+                           "auth": below(r, 3) != 0})
+                }
             }
             12 | 13 => json!({"a":"ImmUp"}),
             14 => json!({"a":"EpochUp","n": if below(r, 5) == 0 { 2 } else { 1 }}),
